@@ -84,6 +84,11 @@ func (r *round2) StoreBroadcastMessage(msg round.Message) error {
 
 	// Refresh: There's no proof to verify, but instead check that the constant is identity
 	if r.refresh {
+		// the polynomials of a refresh are written without their (zero) constant coefficient; one that
+		// spells out an identity constant has another form and could not be summed with them in round 3
+		if !body.Phi_i.IsConstant {
+			return fmt.Errorf("party %s sent a polynomial with a constant coefficient while refreshing", from)
+		}
 		if !body.Phi_i.Constant().IsIdentity() {
 			return fmt.Errorf("party %s sent a non-zero constant while refreshing", from)
 		}
